@@ -165,6 +165,11 @@ def sv_unquoted(rng, reader):
     return w, w, "unquoted", False
 
 
+LINE_START_HAZARDS = ["#5", "#", "# note", "/*", "*/", "/* c */", "END", "End",
+                      "END_GROUP", "=", "x=1", "GROUP = g", "-", "--", "(", ")",
+                      "{", "}", ";", "&", "item-", "flat-field", "<m>", ","]
+
+
 def sv_quoted(rng, reader):
     q = rng.choice("\"'")
     other = "'" if q == '"' else '"'
@@ -177,6 +182,16 @@ def sv_quoted(rng, reader):
         for x in words[1:]:
             content += rng.choice((" ", " ", "  ", "   ")) + x
         cls = "quoted:long-with-space-runs"
+    elif r < 0.1:
+        # long text in which every few words would mean something if a wrap
+        # put them at the start of a line (comment openers, keywords, '=')
+        words = []
+        for _ in range(rng.randint(14, 30)):
+            words.append(rng.choice(LINE_START_HAZARDS) if rng.random() < 0.4
+                         else w())
+        words = [x for x in words if q not in x]
+        content = (w() + " " + " ".join(words)).strip()
+        cls = "quoted:long-with-line-start-hazard-words"
     elif r < 0.2:
         content, cls = "", "quoted:empty"
     elif r < 0.4:
